@@ -496,7 +496,7 @@ theorem fromCsv_clean (symW : Flags → Bool) (num : String → Option Rat) (hea
               (truncRat ((num (r.getD 0 "")).getD 0), truncRat ((num (r.getD 1 "")).getD 0))) := by
         rw [tuplesOf_pairs, hpairs, classify_strs_numeric _ _ hRne hids, hedges]
       -- the other side
-      unfold fromEdgeListWith
+      unfold fromEdgeListWith tupleWeights
       simp only [hclass]
       rcases hshape with h2 | h3
       · -- rows of two fields: no weights
